@@ -13,6 +13,7 @@ import os
 import random
 import re
 
+from . import mine
 from .render import Prober, tokenize
 from .tlc import run_tlc, validate_observations
 
@@ -104,7 +105,7 @@ def run(ctx):
             vias = VIA_TEXT.get(fam)
             if vias and (w < 4096 or rnd.random() < 0.2):
                 name, si, pi = vias[len(obs) % len(vias)]
-                S = [3, 4, 5, 6]
+                S = [3, 4, 5, 6] if len(obs) % 2 else list(pr.w.words(name, 'start'))      # the other words: small / any in-domain
                 S[si] = w
                 # a third of the renderings come after other syscalls (umask, ...) of the same thread
                 prefix = pr.history(3) if len(obs) % 3 == 0 else ()
@@ -117,8 +118,33 @@ def run(ctx):
                     o['shown'] = []
                     o['err'] = type(ex).__name__
                 obs.append(o)
-    # the same families through the renderings of the events that carry them
+    # the flag word next to constants the decoder's own code mentions (mined from the working tree), planted into
+    # the OTHER words of the record: which word holds the flags must not depend on their values
     from .pairing import AUDIT
+    planted = 0
+    for fam, vias in sorted(VIA_TEXT.items()):
+        ws = words_of(fam, rnd, True)
+        for name, si, pi in vias:
+            ok = mine.audit_allowed(AUDIT[name], skip=(si, 4))
+            base = lambda: list(pr.w.words(name, 'start')) + [0, 1, 2, 3]      # noqa
+            for vec, pl in mine.plant_vectors(name, base, ok, rnd, budget=15 if ctx.quick else 150,
+                                              max_singles=200 if ctx.quick else 1200):
+                for w in [0, ws[-1]] + rnd.sample(ws, 2 if ctx.quick else 6):
+                    S = list(vec[:4])
+                    S[si] = w
+                    planted += 1
+                    o = {'id': '%s/%s/%x/planted%d' % (fam, name, w, planted), 'kind': 'flags', 'fam': fam,
+                         'bits': [i for i in range(32) if w >> i & 1], 'via': '%s START %s' % (name, [hex(x) for x in S])}
+                    try:
+                        t = pr.render(name, S, list(vec[4:]), [b'/p'])
+                        tk = tokenize(t)
+                        o['shown'] = NAME_RE.findall(tk[1][pi]) if tk and len(tk[1]) > pi else ['<no such parameter>']
+                    except Exception as ex:
+                        o['shown'] = []
+                        o['err'] = type(ex).__name__
+                    obs.append(o)
+    ctx.extra['planted_flag_renderings'] = planted
+    # the same families through the renderings of the events that carry them
     for fam, sites in VIA_EVENT.items():
         d = FAM[fam]
         declared = sum(d['single'].values())
